@@ -134,69 +134,16 @@ def impl(c):
 
 
 def parse_obs(c, r):
-    """split the rendered history result of a single call into (outcome head, trace events, end time)"""
-    # outcome
-    i = 0
-    kind = r[0]
-    if kind == 0:
-        i = 2 if r[1] == 0 else None
-    if kind == 2:
-        i = 3 if r[2] == 0 else None
-
-    def skip_resp(j):
-        # enc_opt enc_bytes payload ++ 4 ints
-        if r[j] == 0:
-            return j + 1 + 4
-        return j + 2 + r[j + 1] + 4
-    if i is None:
-        if kind == 0:
-            j = skip_resp(2)
-            i = j + 1 + r[j]
-        elif kind == 2:
-            i = skip_resp(3)
-    if kind == 1:
-        i = skip_resp(1)
-    n = r[i]
-    i += 1
-    evs = []
-    for _ in range(n):
-        t = r[i]
-        if t == 1:
-            evs.append(('F',)); i += 1
-        elif t == 2:
-            ln = r[i + 1]
-            evs.append(('S', bytes(r[i + 2:i + 2 + ln]))); i += 2 + ln
-        elif t == 3:
-            evs.append(('W', r[i + 1], r[i + 2])); i += 3
-        elif t == 4:
-            evs.append(('CB',)); i += 1
-        elif t == 5:
-            ln = r[i + 3]
-            evs.append(('ALGO', r[i + 1], r[i + 2], bytes(r[i + 4:i + 4 + ln]))); i += 4 + ln
-        elif t == 6:
-            evs.append(('TO', r[i + 1])); i += 2
-        else:
-            raise RuntimeError('bad trace')
-    return kind, evs, r[i]
+    d = cl.parse_calls(r, 1)[0][0]
+    kind = {'none': 0, 'ok': 0, 'returned': 1, 'raised': 2}[d['kind']]
+    return kind, d['events'], d['end'], d
 
 
 def case_info(c):
-    a = c.ints
-    cfgv = a[:cl.CFG_LEN]
-    pos = cl.CFG_LEN + 1
-    assert a[pos] == 4
-    callid, nargs = a[pos + 1], a[pos + 2]
-    args = a[pos + 3:pos + 3 + nargs]
-    pos += 3 + nargs
-    ncb, nfr = a[pos], a[pos + 1]
-    pos += 2
-    frames = c.blobs[ncb:]
-    arr = []
-    for i in range(nfr):
-        arr.append((a[pos], frames[i]))
-        pos += 2
+    cfgv, ops = cl.case_ops(c)
+    _, callid, args, cb, reps = ops[0]
     timeout = args[4] if callid == 1 else -1
-    return cfgv, timeout, arr
+    return cfgv, timeout, [(d, f) for d, f in reps]
 
 
 def oracle(c, r):
@@ -210,13 +157,13 @@ def oracle(c, r):
         if f != PENDING:
             break
     waits, out, end, tk = spec_waits(cfgv, timeout, kinds)
-    kind, evs, t_end = parse_obs(c, r)
+    kind, evs, t_end, dd = parse_obs(c, r)
     got = [(e[1], e[2]) for e in evs if e[0] == 'W']
     if got != waits:
         return ('waits', 'wait_frame calls (timeout, at) = %r, the timing rule says %r' % (got, waits))
     if t_end != end:
         return ('end-time', 'call ended at %d us, the timing rule says %d' % (t_end, end))
-    timed_out = (kind == 2 and r[1] == 4)
+    timed_out = (dd['kind'] == 'raised' and dd['err'] == 4)
     if timed_out != (out == 'timeout'):
         return ('timeout-iff', 'timeout raised = %s, window empty = %s' % (timed_out, out == 'timeout'))
     if timed_out:
